@@ -7,6 +7,7 @@ pub mod known;
 pub mod minimise;
 pub mod orchestrate;
 pub mod prng;
+pub mod probes;
 pub mod props;
 pub mod provider;
 pub mod reference;
